@@ -117,6 +117,11 @@ def step (st : St) (ts : List String) : St × String :=
   match ts with
   | ["cfg", cg, cl, nc, rt] => ({ st with cutG := pF cg, cutL := pF cl, normC := pF nc, rtol := pF rt }, "ok")
   | "rules" :: k :: rest => ({ st with rules := parseRules (pN k) rest }, "ok")
+  | "zn" :: rest =>
+      -- ZeemanStructure.evaluate: normalised (wavelength, ratio) table, wavelengths first then ratios (numpy 2xN layout)
+      let (tab, _) := takeTable rest
+      let t := zeemanNormalise tab
+      (st, fFs (t.map (·.1) ++ t.map (·.2)))
   | ["mode", m] => ({ st with cdf := m == "cdf" }, "ok")
   | "gtab" :: n :: rest => ({ st with gtab := parseTriples (pN n) (rest.map pF) }, "ok")
   | "mc" :: pol :: r :: rest =>
